@@ -229,7 +229,10 @@ class _Orient(ast.NodeTransformer):
 
     def visit_UnaryOp(self, node):
         self.generic_visit(node)
-        if isinstance(node.op, ast.Not) and isinstance(node.operand, ast.Compare) and len(node.operand.ops) == 1:
+        if isinstance(node.op, ast.Not) and isinstance(node.operand, ast.Compare) and len(node.operand.ops) == 1 \
+                and not (isinstance(node.operand.ops[0], (ast.Lt, ast.LtE, ast.Gt, ast.GtE)) and
+                         any(isinstance(x, (ast.Set, ast.SetComp)) or ast.unparse(x).startswith(("set(", "frozenset("))
+                             for x in [node.operand.left] + node.operand.comparators)):
             neg = {ast.Eq: ast.NotEq, ast.NotEq: ast.Eq, ast.In: ast.NotIn, ast.NotIn: ast.In, ast.Is: ast.IsNot,
                    ast.IsNot: ast.Is, ast.Lt: ast.GtE, ast.GtE: ast.Lt, ast.Gt: ast.LtE, ast.LtE: ast.Gt}
             c = node.operand
@@ -461,6 +464,24 @@ def translate(path=None) -> str:
         re.fullmatch(r"if (\d+) == len\(attribute_hash\):\n    attribute_hash = self\.pad_hash\(attribute_hash\)\n"
                      r"self\.known_attestation_hashes\[attribute_hash\] = \((.*)\)", txt)
     if not m:
+        # the `len == N -> pad_hash` step extracted into a helper that returns the normalised hash
+        m2 = re.fullmatch(r"attribute_hash = self\.(\w+)\(attribute_hash\)\n"
+                          r"self\.known_attestation_hashes\[attribute_hash\] = \((.*)\)", txt) or \
+            re.fullmatch(r"self\.known_attestation_hashes\[self\.(\w+)\(attribute_hash\)\] = \((.*)\)", txt)
+        h_ = fns.get(m2.group(1)) if m2 else None
+        if h_ is not None and not h_.decorator_list and len(h_.args.args) == 2:
+            ic = {k: v for k, v in consts.items() if isinstance(v, int) and not isinstance(v, bool)}
+            htxt = _text(normalise(h_, ["self", "attribute_hash"], sigs, ic, fold_returns=True))
+            mh = re.fullmatch(r"if len\(attribute_hash\) == (\d+):\n    return self\.pad_hash\(attribute_hash\)\n"
+                              r"else:\n    return attribute_hash", htxt) or \
+                re.fullmatch(r"if (\d+) == len\(attribute_hash\):\n    return self\.pad_hash\(attribute_hash\)\n"
+                             r"else:\n    return attribute_hash", htxt)
+            if mh:
+                class _M:      # same interface as the direct match: group(1) = length, group(2) = stored tuple
+                    def __init__(self, a, b): self.g = (a, b)
+                    def group(self, i): return self.g[i - 1]
+                m = _M(mh.group(1), m2.group(2))
+    if not m:
         raise TranslatorError("add_known_hash has an unexpected shape:\n" + txt)
     pad_len = int(m.group(1))
     slots = [x.strip() for x in m.group(2).split(",")]
@@ -531,6 +552,21 @@ def translate(path=None) -> str:
         if c == _norm_expr("metadata.token_pointer not in pseudonym.tree.elements"):
             guards.append("tokenKnown")
             return
+        if isinstance(c_node, ast.UnaryOp) and isinstance(c_node.op, ast.Not) and isinstance(c_node.operand, ast.Compare) \
+                and len(c_node.operand.ops) == 1:
+            cmp_ = c_node.operand
+            lo, hi = (cmp_.left, cmp_.comparators[0]) if isinstance(cmp_.ops[0], ast.LtE) else \
+                (cmp_.comparators[0], cmp_.left) if isinstance(cmp_.ops[0], ast.GtE) else (None, None)
+            if isinstance(lo, ast.Set) and all(isinstance(e, ast.Constant) and isinstance(e.value, str) for e in lo.elts) \
+                    and ast.unparse(hi) in (f"set({TRANSACTION}.keys())", f"{TRANSACTION}.keys()", f"set({TRANSACTION})"):
+                # `not {"name", "date", "schema"} <= requested_keys`: some required field is missing
+                for e in lo.elts:
+                    if e.value not in ("name", "date", "schema"):
+                        raise TranslatorError(f"should_sign: required field outside name/date/schema: {e.value}")
+                    if not fields_seen:
+                        guards.append("FIELDS")
+                    fields_seen.append(e.value)
+                return
         fm = re.fullmatch(r"'(\w+)' not in set\(" + re.escape(TRANSACTION) + r"\.keys\(\)\)", c) or \
             re.fullmatch(r"'(\w+)' not in " + re.escape(TRANSACTION) + r"(?:\.keys\(\))?", c)
         if fm:
@@ -808,7 +844,56 @@ def translate(path=None) -> str:
                               "        self.database.insert_token(self.public_key, v1)"},
                "PseudonymManager.store_new_tokens", sg={})
         f_, pr = mp("IdentityManager", "substantiate")
-        pinned(f_, pr, {"ok":
+        stxt = _text(normalise(f_, pr, {}, fold_returns=True))
+        msplit = re.fullmatch(
+            r"v0 = self\.get_pseudonym\(public_key\)\n"
+            r"v1 = set\(v0\.tree\.elements\)\n"
+            r"v2 = v0\.tree\.unserialize_public\(serialized_tokens\)\n"
+            r"v0\.store_new_tokens\(v1\)\n"
+            r"self\.(\w+)\(v0, public_key, serialized_metadata\)\n"
+            r"v2 &= self\.(\w+)\(v0, serialized_attestations, serialized_authorities\)\n"
+            r"return \(v2, v0\)", stxt)
+        if msplit:
+            # the two loading loops extracted into helpers: the same loops, the second one folding into its own flag that
+            # the caller `&=`s into `correct` - both helper bodies are pinned as well
+            def hp(name_, params_, want_):
+                hf = mfns.get(("IdentityManager", name_))
+                if hf is None:
+                    raise TranslatorError(f"manager.py: IdentityManager.{name_} not found")
+                deco_ = [ast.unparse(d) for d in hf.decorator_list]
+                got_ = [a.arg for a in hf.args.args]
+                if deco_ == ["staticmethod"]:
+                    hf = copy.deepcopy(hf)
+                    hf.args.args.insert(0, ast.arg(arg="self"))
+                    hf.decorator_list = []
+                    got_ = ["self"] + got_
+                elif deco_:
+                    raise TranslatorError(f"IdentityManager.{name_} is decorated {deco_}")
+                if len(got_) != len(params_):
+                    raise TranslatorError(f"IdentityManager.{name_} takes {got_}")
+                t_ = _text(normalise(hf, params_, {}, fold_returns=True))
+                if t_ != want_:
+                    raise TranslatorError(f"IdentityManager.{name_} has an unexpected shape:\n" + t_)
+            hp(msplit.group(1), ["self", "pseudonym", "public_key", "serialized_metadata"],
+               "v0 = 0\n"
+               "while len(serialized_metadata) > v0:\n"
+               "    v2, = struct.unpack_from('>I', serialized_metadata, v0)\n"
+               "    v1 = Metadata.unserialize(serialized_metadata[v0 + 4:v0 + 4 + v2], public_key)\n"
+               "    pseudonym.add_metadata(v1)\n"
+               "    v0 += 4 + v2")
+            hp(msplit.group(2), ["self", "pseudonym", "serialized_attestations", "serialized_authorities"],
+               "v0 = True\n"
+               "v1 = 0\n"
+               "v2 = 0\n"
+               "while len(serialized_authorities) > v2:\n"
+               "    v4, = struct.unpack_from('>H', serialized_authorities, v2)\n"
+               "    v3 = self.crypto.key_from_public_bin(serialized_authorities[v2 + 2:v2 + 2 + v4])\n"
+               "    v2 += 2 + v4\n"
+               "    v0 &= pseudonym.add_attestation(v3, Attestation.unserialize(serialized_attestations, v3, v1))\n"
+               "    v1 += 32 + v3.get_signature_length()\n"
+               "return v0")
+        else:
+          pinned(f_, pr, {"ok":
             "v0 = self.get_pseudonym(public_key)\n"
             "v1 = set(v0.tree.elements)\n"
             "v2 = v0.tree.unserialize_public(serialized_tokens)\n"
